@@ -12,7 +12,7 @@ from mc.gen import render
 
 ID = "C14"
 LEVEL = "fault_enumeration"
-LEVEL_TEXT = ("Complete enumeration of valid generated program x every statement position (top level and inside blocks, named scopes, loop bodies, taken .if branches and bodies of applied macros; every top-level variant also with the whole program in an .include'd file) x 44 classes of definite error "
+LEVEL_TEXT = ("Complete enumeration of valid generated program x every statement position (top level and inside blocks, named scopes, loop bodies, taken .if branches and bodies of applied macros; every top-level variant also with the whole program in an .include'd file) x 46 classes of definite error "
               "(bad character, bad size suffix, bad index register, unterminated string, unterminated comment, missing closing brace, "
               "stray token, undefined symbol in an operand / in data, undefined macro, too few macro arguments, addressing mode or "
               "width the mnemonic lacks, branch out of range, *= to an unmapped bank, missing .include/.incbin/.table/.include_ips "
@@ -73,6 +73,8 @@ FAULTS = {
     "malformed-ips-file": ".include_ips 'blob.bin', 0",
     "splice-undefined": "{{c14nosuchblock}}",
     "branch-to-ram": "bra 0x7e0000",
+    "immediate-with-index": "lda #0x12,x",
+    "indirect-long-with-x": "lda [0x12],x",
 }
 PRELUDE = [("macro", "c14two", ["p", "q"], [("data", "db", [("s", "p"), ("s", "q")])])]
 ENTRIES = ["string-api", "assemble", "assemble_as_patch", "cli-ips", "cli-sfc"]
@@ -106,7 +108,7 @@ def setup(tier, seed):
 
 
 def bound(tier):
-    return "7 base programs x every top-level and nested position x 44 error classes x 5 in-process entry points; 44 x 2 real CLI processes; controls"
+    return "7 base programs x every top-level and nested position x 46 error classes x 5 in-process entry points; 46 x 2 real CLI processes; controls"
 
 
 def base_programs():
@@ -249,6 +251,9 @@ def inject_nested(prog, path, text):
 
 def run_fault(name, fault):
     prog = base_programs()[name]
+    if fault in ("undefined-macro", "too-few-macro-arguments"):
+        # an earlier, unrelated assembly in this process that DEFINES that macro name must not make the error go away
+        impl.assemble(".macro nosuchmacro(a) {\n.db a\n}\n.macro c14two(p) {\n.db p\n}\n*=0x018000\nnosuchmacro(1)\nc14two(2)\n", rom="low_rom")
     files = dict(c12.FILES)
     files.update(render.files_of(prog))
     n_top = len(prog) - len(PRELUDE)
